@@ -7,6 +7,7 @@ RULES = {
     "G3": order.rule_G3,
     "G5": order.rule_G5,
     "G6": order.rule_G6,
+    "G7": order.rule_G7,
     "D1": effects.rule_D1,
     "D2": effects.rule_D2,
     "D3": effects.rule_D3,
@@ -17,12 +18,13 @@ RULES = {
     "B4": proto.rule_B4,
     "B5": proto.rule_B5,
     "B6": proto.rule_B6,
+    "B7": proto.rule_B7,
     "E1": guard.rule_E1, "E2": cursor.rule_E2, "E3": cursor.rule_E3,
     "A1": coord.rule_A1, "A2": coord.rule_A2, "A3": coord.rule_A3, "A4": coord.rule_A4,
     "A5": coord.rule_A5, "A6": coord.rule_A6, "A7": coord.rule_A7, "A8": coord.rule_A8, "A9": coord.rule_A9, "A10": coord.rule_A10,
     "F1": tables.rule_F1, "F2": tables.rule_F2, "F3": tables.rule_F3, "F4": tables.rule_F4, "F5": tables.rule_F5,
     "F6": tables.rule_F6, "F7": tables.rule_F7, "F8": tables.rule_F8, "F9": tables.rule_F9, "F10": tables.rule_F10, "F11": tables.rule_F11, "F12": tables.rule_F12, "F13": tables.rule_F13, "F14": tables.rule_F14,
-    "F15": tables.rule_F15, "F16": tables.rule_F16,
+    "F15": tables.rule_F15, "F16": tables.rule_F16, "F17": tables.rule_F17, "F18": tables.rule_F18, "F19": tables.rule_F19, "F20": tables.rule_F20, "F21": tables.rule_F21, "F22": tables.rule_F22,
     "C1": deadline.rule_C1,
     "C2": deadline.rule_C2,
     "C3": deadline.rule_C3,
@@ -60,4 +62,8 @@ CONTROLS = [
     {"name": "C1-none-deadline", "rule": "C1", "fn": _fires(deadline.rule_C1, "c1_bad_carrier")},
     {"name": "C3-unprobed-nest", "rule": "C3", "fn": _fires(deadline.rule_C3, "c1_callee")},
     {"name": "C5-branch-on-deadline", "rule": "C5", "fn": _fires(deadline.rule_C5, "c1_bad_carrier")},
+    {"name": "A8-one-sided-advance", "rule": "A8", "fn": _fires(coord.rule_A8, "a8_bad_lockstep")},
+    {"name": "G7-absorb-untested", "rule": "G7", "fn": _fires(order.rule_G7, "g7_bad_absorb")},
+    {"name": "F20-consuming-lookahead", "rule": "F20", "fn": _fires(tables.rule_F20, "f20_bad_lookahead")},
+    {"name": "F22-partial-reinit", "rule": "F22", "fn": _fires(tables.rule_F22, "f22_bad_reset")},
 ]
